@@ -99,3 +99,23 @@ Qed.
 
 Lemma b64_encode_nonempty s : b64_encode s = [] -> s = [].
 Proof. destruct s as [|x [|y [|z r]]]; [reflexivity|discriminate..]. Qed.
+
+(* the encoder's output is ASCII *)
+Lemma alphabet_ascii : forallb (fun v => b64_char v <? 128) sextets = true.
+Proof. vm_compute. reflexivity. Qed.
+
+Lemma char_ascii v : v < 64 -> b64_char v < 128.
+Proof. intro H. apply N.ltb_lt. exact (proj1 (forallb_forall _ _) alphabet_ascii v (sextet_in v H)). Qed.
+
+Lemma b64_encode_ascii s : bytes s -> Forall (fun c => c < 128) (b64_encode s).
+Proof.
+  unfold bytes. induction s using list_ind3; intro B.
+  - constructor.
+  - inversion B as [|? ? Bx _]; subst. unfold is_byte in *. cbn [b64_encode].
+    repeat constructor; try (apply char_ascii; lia); unfold pad; lia.
+  - inversion B as [|? ? Bx B']; subst. inversion B' as [|? ? By _]; subst. unfold is_byte in *. cbn [b64_encode].
+    repeat constructor; try (apply char_ascii; lia); unfold pad; lia.
+  - inversion B as [|? ? Bx B']; subst. inversion B' as [|? ? By B'']; subst.
+    inversion B'' as [|? ? Bz Br]; subst. unfold is_byte in *. cbn [b64_encode].
+    repeat (constructor; [apply char_ascii; lia|]). now apply IHs.
+Qed.
